@@ -247,6 +247,27 @@ def _partition_parser(ck, R1, pq):
     return ("::", ":", "#")
 
 
+def check_stub_from_stored_state(ck, R3):
+    """The external stand-in for a function that cannot be resolved at the stored version is built
+    from what was stored (the parsed name and the decoder's arguments) and from nothing that the
+    *current* code says: the current definition may have other parameters than the stored call."""
+    fq = FA(ck, FR + ".from_qualified_name")
+    stubs = fq.calls("UnboundExternalMementoFunction")
+    for call in stubs:
+        for k in call.keywords:
+            if k.arg is None:
+                continue
+            d = fq.deps(k.value)
+            live = sorted(x for x in d if x in ("call:import_module", "call:signature", "call:getattr", "call:_find_function", "call:getfullargspec")
+                          or x.startswith("getattr:fn") or x.startswith("getattr:__code__") or x.startswith("getattr:src_fn"))
+            ck.ob(R3, fq.key(call, "stub-from-stored:" + k.arg), not live,
+                  "%s of the external stub comes from the stored state" % k.arg if not live else
+                  "%s of the external stub is derived from the function as currently defined (%s): when the callee's signature changed, a stored "
+                  "positional call no longer fits it and decoding the memento raises instead of yielding an external reference" % (k.arg, live), fq.where(call))
+    ck.ob(R3, fq.key(None, "stub-sites"), len(stubs) >= 1, "%d external stub construction site(s)" % len(stubs) if stubs else
+          "from_qualified_name no longer falls back to UnboundExternalMementoFunction", fq.where())
+
+
 def check_parser(ck, R1):
     pq = FA(ck, FR + ".parse_qualified_name")
     ms = [c for c in pq.calls("match") if A.call_dotted(c) in ("re.match", "re.fullmatch")]
@@ -256,6 +277,8 @@ def check_parser(ck, R1):
 
 
 def check(ck):
+    from .memo import check_new_memo_tables
+    ck.run(check_new_memo_tables, ck, "C12.M1", ('serialization', 'reference', 'storage_base'))
     R1, R2, R3 = "C12.R1", "C12.R2", "C12.R3"
     ck.rule(R1, "qualified-name pattern (regex AST): shape (cluster '::')? module ':' function ('#' version)?; '#' is "
                 "excluded from cluster, ':' and '#' from module, '#' from function; version is unrestricted and last", 6)
@@ -338,6 +361,7 @@ def check(ck):
     ck.run(check_strip_is_not_prefix_removal, ck, R2)
     from .c11 import check_reference_resolved_afresh
     ck.run(check_reference_resolved_afresh, ck, R3)
+    ck.run(check_stub_from_stored_state, ck, R3)
     # ---- R3 (a): handler coverage in from_qualified_name
     fq = FA(ck, FR + ".from_qualified_name")
     ff = FA(ck, FR + "._find_function")
